@@ -243,8 +243,8 @@ CHECKS = [
              "the same seed-sequence objects (holds after fixes 4c86fdc, 4d7f886).",
      "design_ref": "DESIGN.md 4/C27"},
     {"property_id": "C28", "engine": "A", "category": "other", "technique": "the real classic CorrelatedFieldMaker (front end A, object arrays; Hartley kernel replaced by its DFT contract) and the real JAX CorrelatedFieldMaker (jaxpr) are executed on symbolic hyperparameter latents (z3 reals; exp uninterpreted with positivity / monotonicity axioms, sqrt algebraic); the field is affine in the harmonic excitations and is compared / analysed column by column (xi = 0, xi = e_j); obligations are discharged by z3 (NRA)",
-     "note": "Bounds: non-parametric amplitude (power parametrisation, with / without flexibility and asperity), grids 4, 6, 8, 2x4, 3x3, 4x4 (4x6 thorough), products of two spaces, concrete distances and prior parameters, both Hartley conventions for the agreement. exp applications whose arguments agree up to 1e-9 in every coefficient are identified (differently rounded float constants of the two code bases); comparisons are relative 1e-9. Matern amplitudes, the amplitude parametrisation, HEALPix spaces, total_N > 0 and correlated_fields_simple are outside the claim.",
-     "text": "Bounded symbolic verification: for ALL hyperparameter latents the classic and the JAX model return the same offset and the same "
+     "note": "Bounds: non-parametric amplitude (power parametrisation for the agreement and the classic variance, power and amplitude parametrisation for the JAX variance; with / without flexibility and asperity) and Matern amplitude (agreement; JAX variance with renormalize_amplitude; classic variance = known finding), grids 4, 6, 8, 2x4, 3x3, 4x4 (4x6 thorough), products of two spaces, concrete distances and prior parameters, both Hartley conventions for the agreement. exp / log applications and square roots whose arguments agree as rational functions up to 1e-9 of their largest coefficient are identified (differently rounded float constants of the two code bases), exp(a + r) is split when exp(a) exists; comparisons are relative 1e-9. HEALPix spaces, total_N > 0 and correlated_fields_simple are outside the claim.",
+     "text": "Bounded symbolic verification: for ALL hyperparameter latents the classic and the JAX model (non-parametric and Matern) return the same offset and the same "
              "response to every harmonic excitation; the expected spatial variance about the spatial mean equals total_fluctuation^2 and, for "
              "product spectra, the slice / average variances equal slice_fluctuation^2 / average_fluctuation^2 on every grid of the bound (non-parametric amplitude).  Known finding: the classic Matern amplitude's total_fluctuation is not the field's standard deviation.",
      "design_ref": "DESIGN.md 4/C28"},
